@@ -17,6 +17,7 @@ import json
 import os
 
 from harness import solveprog as sp
+from harness import c18 as faults
 
 PROP = "C19"
 LEVEL_TEXT = ("Lean 4 theorems, for every validation module (an arbitrary function of its state and the parameters, "
@@ -67,7 +68,11 @@ RULE = ("(a) case = (period c in 1..4, script length L, chunk of scripts); every
         "with n = c*L + 1 (one more invocation than the script length is possible); the model and Holds.C19 are "
         "evaluated once per distinct (script prefix through its first stop request, observation) pair -- scripts that "
         "differ only after their first stop request and give the same observation are one computation; (b) case = one static "
-        "configuration x (period, patience 0..3, early on/off) variations with the real ValidationLoss; non-trivial = at "
+        "configuration x (period, patience 0..3, early on/off) variations with the real ValidationLoss; (c) NaN faults "
+        "(every route, k = 0..8 on and off the schedule, periods 1..3) combined with a scripted module (with and "
+        "without stop requests) and with the real ValidationLoss on a still-decreasing loss: the failing invocation "
+        "must receive the post-update (NaN) parameters, record the criterion computed on them and set / leave the "
+        "best parameters accordingly; non-trivial = at "
         "least two invocations and (a stop before n, or an improvement after the first invocation)")
 ASSUMPTIONS = [
     "a scripted module returns script[min(counter, L-1)] (harness-side object, replicated in the model)",
@@ -217,6 +222,23 @@ def gen_cases(rng, tier):
             sh["gens"]["obs"]["sharding_device"] = True
             sh.update(jit=False, sharding=True, n=min(sh["n"], 8))
             cases.append({"mode": "vloss", "seg": sh, "variants": rng.sample(variants, 3)})
+    # NaN faults combined with a validation module (the groups of C18: scripted / real ValidationLoss,
+    # every route, k = 0..8 on and off the schedule, no stop request) ...
+    for g in faults.fault_val_groups(rng, tier):
+        cases.append({"mode": "fault", "seg": g[0], "segs": g})
+    # ... and with scripts that do request stops, before, at and after the failing iteration
+    for c in (1, 2, 3):
+        base = faults._base(rng, 9, opt_kind="sgd")
+        base["track"] = sp.full_track(base["shape"])
+        seg = faults._with_route(rng, base, ["opt", "loss", "grad-eq"][c - 1])
+        L = 9 // c + 2
+        scs = ["i" * L, "iiI" + "i" * (L - 3), "sI" + "i" * (L - 2)] + \
+              ["".join(rng.choice(SYMS) for _ in range(L)) for _ in range(3 if tier == "quick" else 12)]
+        for sc in scs:
+            cases.append({"mode": "fault", "script": sc, "seg": seg,
+                          "segs": [{**seg, "k": k, "val": {"kind": "scripted", "call_every": c,
+                                                           "script": faults.script_outcomes(sc)}}
+                                   for k in ((0, 1, 2, 3, 4, 6) if tier == "quick" else range(9))]})
     # the (slow, eager) Python-loop cases go first so that they overlap with the bulk of the work
     def _slow(c):
         return bool((c.get("seg") or c["segs"][0]).get("sharding"))
@@ -224,6 +246,11 @@ def gen_cases(rng, tier):
 
 
 def shrink_candidates(case):
+    if case["mode"] == "fault":
+        if len(case["segs"]) > 1:
+            for sg in case["segs"]:
+                yield {**case, "segs": [sg], "seg": sg}
+        return
     if case["mode"] == "scripted":
         if len(case["scripts"]) > 1:
             for s in case["scripts"]:
@@ -263,7 +290,28 @@ def prefix_key(script):
     return script
 
 
+def _run_fault(case):
+    """mode "fault": each segment has its own fault position; the marked point comes from the replay"""
+    out = {"runs": [], "uniq": [], "rep": [], "index": []}
+    for i, seg in enumerate(case["segs"]):
+        data, pdata, odata = sp.build_generators(seg["gens"])
+        batches, fps = sp.replay(data, pdata, odata, int(seg["n"]))
+        rs = faults._resolved(seg, batches)
+        obs, _ = sp.run_segment(rs)
+        rec = {"batches": batches, "gens": fps}
+        if seg["val"]["kind"] == "vloss":
+            vd, vp, vo = sp.build_generators(seg["val"]["gens"])
+            rec["vbatches"], _ = sp.replay(vd, vp, vo, int(seg["n"]))
+        out["runs"].append(rec)
+        out["uniq"].append(obs)
+        out["rep"].append(i)
+        out["index"].append(i)
+    return out
+
+
 def run_impl(case):
+    if case["mode"] == "fault":
+        return _run_fault(case)
     seg = case["seg"]
     data, pdata, odata = sp.build_generators(seg["gens"])
     batches, fps = sp.replay(data, pdata, odata, int(seg["n"]))
@@ -290,6 +338,13 @@ def run_impl(case):
 
 
 def lean_request(case, obs):
+    if case["mode"] == "fault":
+        reqs = []
+        for seg, rec, o in zip(case["segs"], obs["runs"], obs["uniq"]):
+            rs = faults._resolved(seg, rec["batches"])
+            reqs.append({"op": "c19", "prog": sp.lean_prog(rs, rec["batches"], rec["gens"],
+                                                             vbatches=rec.get("vbatches")), "obs": o})
+        return reqs
     segs = list(_segments(case))
     reqs = []
     for o, i in zip(obs["uniq"], obs["rep"]):
@@ -299,10 +354,14 @@ def lean_request(case, obs):
 
 
 def _label(case, i):
+    if case["mode"] == "fault":
+        sg = case["segs"][i]
+        return {"route": sg["route"], "k": sg["k"], "module": sg["val"]["kind"], "period": sg["val"]["call_every"]}
     return case["scripts"][i] if case["mode"] == "scripted" else case["variants"][i]
 
 
 def judge(case, obs, answers):
+    obs["_fault_at"] = [a.get("fault_at") for a in answers]
     for u, a in enumerate(answers):
         if not a["holds"]:
             return {"status": "violation", "clause": a["clause"], "which": _label(case, obs["rep"][u])}
@@ -327,11 +386,19 @@ def tags(case, obs):
     seg = case["seg"]
     out = [f"mode={case['mode']}", "python_loop(obs_batch_sharding)" if seg.get("sharding") else
            ("jit_wrapped" if seg.get("jit", True) else "plain_call")]
-    if case["mode"] == "scripted":
+    if case["mode"] == "fault":
+        sg = case["segs"][0]
+        c = sg["val"]["call_every"]
+        out.append(f"fault_route={sg['route']}/module={sg['val']['kind']}/period={c}")
+        for k in obs.get("_fault_at", []):
+            if k is not None:
+                out.append("fault_on_validation_schedule" if k % c == 0 else "fault_off_validation_schedule")
+        out += ["fault_run"] * len(case["segs"])
+    elif case["mode"] == "scripted":
         out.append(f"period={seg['val']['call_every']}")
         out.append(f"script_len={len(case['scripts'][0])}" + ("" if case.get("exhaustive") else "(canonical/sample)"))
         out += ["scripted_run"] * len(case["scripts"])
-    else:
+    elif case["mode"] == "vloss":
         out.append(f"vloss={seg['val']['vkind']}")
         out += ["validation_loss_run"] * len(case["variants"])
         if seg["val"]["gens"]["param"]:
